@@ -12,12 +12,14 @@ N(x) == << >>
 Sl(s, e, k) == [t |-> "slice", start |-> s, stop |-> e, step |-> k]
 ItemsFor(ax) ==
      {[t |-> "int", i |-> i] : i \in {0, -1} \cap (-ax.n)..(ax.n - 1)}
-\cup {Sl(<< >>, << >>, << >>), Sl(<<1>>, << >>, << >>), Sl(<< >>, << >>, <<2>>), Sl(<<0>>, <<1>>, << >>), Sl(<< >>, <<-1>>, << >>)}
-\cup (IF ax.kind # "linear" /\ ax.n >= 1 THEN {[t |-> "list", idx |-> <<0, -1>>], [t |-> "mask", mask |-> [i \in 1..ax.n |-> i % 2 = 1]],
-                                               Sl(<< >>, << >>, <<-1>>)} ELSE {})
+\cup {Sl(<< >>, << >>, << >>), Sl(<<1>>, << >>, << >>), Sl(<< >>, << >>, <<2>>), Sl(<<0>>, <<1>>, << >>), Sl(<< >>, <<-1>>, << >>),
+      Sl(<<-2>>, << >>, << >>), Sl(<< >>, << >>, <<-1>>), Sl(<<-1>>, << >>, <<-2>>)}
+\cup (IF ax.kind # "linear" /\ ax.n >= 1 THEN {[t |-> "list", idx |-> <<0, -1>>], [t |-> "mask", mask |-> [i \in 1..ax.n |-> i % 2 = 1]]} ELSE {})
+(* two advanced (list / mask) indices are broadcast together by NumPy (pointwise selection): not an axis-wise operation *)
+Fancy(x) == x.t \in {"list", "mask"}
 IndexOps == LET a == st.axes IN
      (IF Len(a) >= 1 THEN {<<x>> : x \in ItemsFor(a[1])} ELSE {})
-\cup (IF Len(a) >= 2 THEN {<<x, y>> : x \in ItemsFor(a[1]), y \in ItemsFor(a[2])} ELSE {})
+\cup (IF Len(a) >= 2 THEN {<<x, y>> \in ItemsFor(a[1]) \X ItemsFor(a[2]) : ~(Fancy(x) /\ Fancy(y))} ELSE {})
 \cup (IF Len(a) >= 1 THEN {<<[t |-> "none"], x>> : x \in ItemsFor(a[1])} ELSE {<<[t |-> "none"]>>})
 \cup (IF Len(a) = 1 THEN {<<x, [t |-> "int", i |-> 0]>> : x \in ItemsFor(a[1])} ELSE {})      \* one index too many: a base axis
 \cup (IF Len(a) = 0 THEN {<<[t |-> "int", i |-> 0]>>} ELSE {})
@@ -25,7 +27,8 @@ IndexOps == LET a == st.axes IN
 Ops == {[k |-> "index", items |-> it] : it \in IndexOps}
   \cup {[k |-> "squeeze"]}
   \cup {[k |-> "expand", pos |-> p] : p \in 0..Len(st.axes)}
-  \cup {[k |-> "reduce", fn |-> f, axis |-> a] : f \in {"sum", "mean", "max"}, a \in (0..(Len(st.axes) - 1)) \cup {-1}}
+  \cup {[k |-> "reduce", fn |-> f, axis |-> a, keepdims |-> kd] : f \in {"sum", "mean", "max"}, a \in (0..(Len(st.axes) - 1)) \cup {-1},
+                                                                 kd \in BOOLEAN}
   \cup {[k |-> "stack", pos |-> p] : p \in 0..Len(st.axes)}
   \cup {[k |-> "concat", axis |-> a] : a \in {a \in 0..(Len(st.axes) - 1) : st.axes[a + 1].kind = "ordinal"}}
   \cup {[k |-> "arith", fn |-> f, other |-> o] : f \in {"add", "sub", "mul", "truediv", "rmul", "rtruediv", "pow"},
